@@ -320,6 +320,10 @@ inductive FOutcome (σ : Type) where
   | outOfFuel (s : σ)
 deriving DecidableEq, Repr
 
+def FOutcome.isOverflow {σ : Type} : FOutcome σ → Bool
+  | .stackOverflow _ => true
+  | _ => false
+
 /-- outcome, final `framesIndex`, highest `framesIndex` seen -/
 structure FResult (σ : Type) where
   outcome : FOutcome σ
